@@ -93,6 +93,9 @@ func (g *G) mixFor(op *compileOp, nNames int) {
 				op.MixNames = append(op.MixNames, strconv.Itoa(id))
 			}
 		}
+		if len(op.MixNames) > 0 && g.Pct(25) {
+			op.MixNames = append(op.MixNames, op.MixNames[g.Intn(len(op.MixNames))])
+		}
 	}
 }
 
